@@ -2,6 +2,7 @@ import PV.C10.Model
 import PV.C10.Spec
 import PV.C10.Lemmas
 import PV.Gen.C10RangeKinds
+import PV.C10.LexFilter   -- lexer model: full_lexer_filter, softkw_commutes_filter(_fails)
 /-
   C10 — property theorems: "Cargo feature choices do not change what is parsed".
 
